@@ -726,14 +726,24 @@ void cmb_process_stop(struct cmb_process *tgt, void *retval)
         return;
     }
 
-    /* Stop the underlying coroutine, set its exit value */
+    /*
+     * Stop the underlying coroutine, set its exit value. A process stopping
+     * itself does not come back from that call, clean up first in that case.
+     */
     struct cmi_coroutine *cp = (struct cmi_coroutine *)tgt;
-    cmi_coroutine_stop(cp, retval);
+    const bool self = (tgt == cmb_process_current());
+    if (!self) {
+        cmi_coroutine_stop(cp, retval);
+    }
 
     /* Clean up unfinished business */
     cmi_process_cancel_awaiteds(tgt);
     cmi_process_drop_resources(tgt);
     wake_process_waiters(&(tgt->waiters), CMB_PROCESS_STOPPED);
+
+    if (self) {
+        cmi_coroutine_stop(cp, retval);
+    }
 }
 
 /*
